@@ -43,7 +43,46 @@ def scenarios(tier):
   return out + pre
 
 
+def transport_scenarios(tier):
+  """The mux / kafka transport driven directly (vt/checks/c11.py harness): requests are issued while the transport is still
+  opening, and a request's deadline (what ClientTimeoutSink does) may fire at any quiescent point or - one preemption -
+  between any two ready callbacks."""
+  out = []
+  for proto in ('mux', 'kafka'):
+    out.append(('%s transport: requests issued while it opens, deadline between callbacks' % proto,
+                {'proto': proto, 'ops': [['req', 'a', True], ['req', 'b', True]], 'max_adversarial': 0, 'early': True, 'max_preempt': 1}, 3))
+    out.append(('%s transport: 3 requests on an open transport, deadline between callbacks' % proto,
+                {'proto': proto, 'ops': [['req', 'a', True], ['req', 'b', True], ['req', 'c']], 'max_adversarial': 0, 'max_preempt': 1}, 2))
+  return out
+
+
 def main(tier, seed):
+  from .. import explore
+  from ..report import Report
+  rep = Report(PROP, tier, seed, 'model_checking')
+  pool = explore.make_pool()
+  try:
+    bound = 3 if tier == 'quick' else 4
+    for name, params in scenarios(tier):
+      b = params.pop('_bound', bound)
+      agg = explore.explore('vt.stackharness', 'run_exec', params, b, seed=seed, pool=pool, split_levels=1 if b <= 2 else 2)
+      agg.violations = [v for v in agg.violations if v['clause'].startswith(PREFIXES)]
+      rep.add_explore(name, agg, b, params=params)
+    for name, params, b in transport_scenarios(tier):
+      b = b + (1 if tier == 'thorough' else 0)
+      agg = explore.explore('vt.checks.c11', 'run_exec', params, b, seed=seed, pool=pool, split_levels=1 if b <= 2 else 2)
+      agg.violations = [v for v in agg.violations if v['clause'].startswith('C12.')]
+      rep.add_explore(name, agg, b, params=params)
+  finally:
+    pool.close()
+    pool.join()
+  rep.assumptions += ASSUME + ['a deadline exactly equal to the clock at a hop is outside the alphabet (off-tick deadlines)',
+                               'back-pressure = sendall blocks until the environment unblocks the connection',
+                               'transport-level parts: the deadline firing is ClientTimeoutSink\'s action run as one ready callback at any position']
+  return rep.finish(rule=RULE, exhaustive=True)
+
+
+def _unused_main(tier, seed):
   return run(PROP, PREFIXES, scenarios(tier), tier, seed, 3 if tier == 'quick' else 4, RULE,
              ASSUME + ['a deadline exactly equal to the clock at a hop is outside the alphabet (off-tick deadlines)',
                        'back-pressure = sendall blocks until the environment unblocks the connection'])
